@@ -47,6 +47,7 @@ pub open spec fn chunks_bytes(d: Seq<(&str, usize)>) -> Seq<u8> decreases d.len(
   if d.len() == 0 { Seq::<u8>::empty() } else { chunks_bytes(d.drop_last()) + d.last().0.spec_bytes() }
 }
 /// representation invariant of the multi-piece form: every piece records the offset at which it starts
+#[verifier::opaque]
 pub open spec fn chunks_wf(d: Seq<(&str, usize)>) -> bool {
   forall|i: int| 0 <= i < d.len() ==> (#[trigger] d[i]).1 == chunks_bytes(d.take(i)).len()
 }
@@ -54,6 +55,7 @@ pub proof fn lemma_chunks_push(d: Seq<(&str, usize)>, x: (&str, usize))
   requires chunks_wf(d), x.1 == chunks_bytes(d).len()
   ensures chunks_wf(d.push(x)), chunks_bytes(d.push(x)) == chunks_bytes(d) + x.0.spec_bytes()
 {
+  reveal(chunks_wf);
   let e = d.push(x);
   assert(e.drop_last() =~= d);
   assert forall|i: int| 0 <= i < e.len() implies (#[trigger] e[i]).1 == chunks_bytes(e.take(i)).len() by {
@@ -68,4 +70,65 @@ pub proof fn lemma_chunks_take(d: Seq<(&str, usize)>, i: int)
 {
   assert(d.take(i + 1).drop_last() =~= d.take(i));
   if i + 1 == d.len() { assert(d.take(i + 1) =~= d); } else { lemma_chunks_take(d, i + 1); }
+}
+pub open spec fn cmp3(a: usize, b: usize) -> Ordering { if a < b { Ordering::Less } else if a == b { Ordering::Equal } else { Ordering::Greater } }
+pub open spec fn clen(d: Seq<(&str, usize)>, i: int) -> int { d[i].0.spec_bytes().len() as int }
+/// lengths of prefixes are monotone
+pub proof fn lemma_chunks_mono(d: Seq<(&str, usize)>, a: int, b: int)
+  requires 0 <= a <= b <= d.len()
+  ensures chunks_bytes(d.take(a)).len() <= chunks_bytes(d.take(b)).len()
+  decreases b - a
+{
+  if a < b { lemma_chunks_take(d, b - 1); lemma_chunks_mono(d, a, b - 1); }
+}
+/// the text of the first i pieces is a prefix of the whole text
+pub proof fn lemma_chunks_prefix(d: Seq<(&str, usize)>, i: int)
+  requires 0 <= i <= d.len()
+  ensures chunks_bytes(d.take(i)).len() <= chunks_bytes(d).len(),
+    chunks_bytes(d).subrange(0, chunks_bytes(d.take(i)).len() as int) == chunks_bytes(d.take(i)),
+  decreases d.len() - i
+{
+  if i == d.len() {
+    assert(d.take(i) =~= d);
+    assert(chunks_bytes(d).subrange(0, chunks_bytes(d).len() as int) =~= chunks_bytes(d));
+  } else {
+    lemma_chunks_take(d, i);
+    lemma_chunks_prefix(d, i + 1);
+    let p = chunks_bytes(d.take(i));
+    let q = chunks_bytes(d.take(i + 1));
+    assert(q.subrange(0, p.len() as int) =~= p);
+    assert(chunks_bytes(d).subrange(0, p.len() as int) =~= chunks_bytes(d).subrange(0, q.len() as int).subrange(0, p.len() as int));
+  }
+}
+/// piece i occupies [start_i, start_i + len_i) of the text; pieces are laid out in order
+pub proof fn lemma_chunk_at(d: Seq<(&str, usize)>, i: int)
+  requires chunks_wf(d), 0 <= i < d.len()
+  ensures d[i].1 + clen(d, i) <= chunks_bytes(d).len(),
+    chunks_bytes(d).subrange(d[i].1 as int, d[i].1 + clen(d, i)) == d[i].0.spec_bytes(),
+    i + 1 < d.len() ==> d[i + 1].1 == d[i].1 + clen(d, i),
+    i + 1 == d.len() ==> chunks_bytes(d).len() == d[i].1 + clen(d, i),
+    i == 0 ==> d[i].1 == 0,
+{
+  reveal(chunks_wf);
+  lemma_chunks_take(d, i);
+  lemma_chunks_prefix(d, i + 1);
+  let p = chunks_bytes(d.take(i));
+  let q = chunks_bytes(d.take(i + 1));
+  assert(q.subrange(p.len() as int, q.len() as int) =~= d[i].0.spec_bytes());
+  assert(chunks_bytes(d).subrange(p.len() as int, q.len() as int) =~= chunks_bytes(d).subrange(0, q.len() as int).subrange(p.len() as int, q.len() as int));
+  if i + 1 == d.len() { assert(d.take(i + 1) =~= d); }
+  if i == 0 { assert(d.take(0) =~= Seq::<(&str, usize)>::empty()); }
+}
+pub proof fn lemma_chunks_order(d: Seq<(&str, usize)>, i: int, j: int)
+  requires chunks_wf(d), 0 <= i < j < d.len()
+  ensures d[i].1 + clen(d, i) <= d[j].1
+{
+  reveal(chunks_wf);
+  lemma_chunks_take(d, i);
+  lemma_chunks_mono(d, i + 1, j);
+}
+pub proof fn lemma_chunks_wf_empty()
+  ensures chunks_wf(Seq::<(&str, usize)>::empty())
+{
+  reveal(chunks_wf);
 }
